@@ -7,6 +7,7 @@
 #include <poll.h>
 #include <signal.h>
 #include <sched.h>
+#include <malloc.h>
 #include <sys/wait.h>
 #include <sys/stat.h>
 #include <time.h>
@@ -69,6 +70,7 @@ static void pin_to_cpu(int k) {
 
 static void worker_main(const Args &a, int slot, long start_idx, bool skip_baseline, int wfd) {
     pin_to_cpu(slot);
+    mallopt(M_MMAP_THRESHOLD, 1 << 30); mallopt(M_TRIM_THRESHOLD, 1 << 30);
     runner_install();
     install_signal_handlers();
     GenOpts go; go.tier = a.tier; go.S = a.S; go.force_prec = a.force_prec;
@@ -95,7 +97,7 @@ static void worker_main(const Args &a, int slot, long start_idx, bool skip_basel
 }
 
 // ------------------------------------------------------------------ synthesising results for dead children
-static J synth_crash(uint64_t seed, int status, const std::string &errtext, bool timeout, int sig_from_child) {
+static J synth_crash(uint64_t seed, int status, const std::string &errtext, bool timeout, int sig_from_child, const std::string &tag = "") {
     J j = J::obj();
     j.set("seed", J((long long)seed));
     J v = J::obj();
@@ -129,6 +131,7 @@ static J synth_crash(uint64_t seed, int status, const std::string &errtext, bool
         j.set("end", "machinery");
         v.set("p", "MACHINERY").set("o", "child_exit"); sig = "child_exit"; detail = "exit status " + std::to_string(status) + " " + errtext.substr(0, 300);
     }
+    if (v.str("p") != "MACHINERY") sig += tag;
     v.set("sig", sig).set("d", detail).set("op", -1);
     J vs = J::arr(); vs.push(v); j.set("viol", vs);
     return j;
@@ -163,13 +166,14 @@ J run_forked(const Case &c0, double timeout_s, const std::string &errdir, long b
     }
     close(pfd[0]);
     int status = 0; waitpid(pid, &status, 0);
-    J res; bool got = false; int sigc = 0;
+    J res; bool got = false; int sigc = 0; std::string tag;
     std::istringstream is(buf); std::string line;
     while (std::getline(is, line)) {
+        if (line.size() > 2 && line[0] == 'T') tag = line.substr(2);
         if (line.size() > 2 && line[0] == 'R' && J::parse_str(line.substr(2), res)) got = true;
         if (line.size() > 2 && line[0] == 'X') { J x; if (J::parse_str(line.substr(2), x)) sigc = (int)x.num("signal"); }
     }
-    if (!got) res = synth_crash(c0.seed, status, slurp(errfile), timeout, sigc);
+    if (!got) res = synth_crash(c0.seed, status, slurp(errfile), timeout, sigc, tag);
     unlink(errfile.c_str());
     return res;
 }
@@ -215,7 +219,7 @@ struct Agg {
 static J map_to_j(const std::map<std::string, long> &m) { J o = J::obj(); for (auto &kv : m) o.set(kv.first, J((long long)kv.second)); return o; }
 
 // ------------------------------------------------------------------ batch
-struct Slot { pid_t pid = -1; int fd = -1; std::string buf; bool inflight = false; uint64_t inflight_seed = 0; double since = 0; long next_idx = 0; bool done = false; std::string errfile; int sigc = 0; int restarts = 0; };
+struct Slot { std::string tag; pid_t pid = -1; int fd = -1; std::string buf; bool inflight = false; uint64_t inflight_seed = 0; double since = 0; long next_idx = 0; bool done = false; std::string errfile; int sigc = 0; int restarts = 0; };
 
 static int cmd_batch(const Args &a) {
     double t0 = now_s();
@@ -264,7 +268,8 @@ static int cmd_batch(const Args &a) {
                 size_t pos;
                 while ((pos = sl.buf.find('\n')) != std::string::npos) {
                     std::string line = sl.buf.substr(0, pos); sl.buf.erase(0, pos + 1);
-                    if (line.size() > 2 && line[0] == 'B') { sl.inflight = true; sl.inflight_seed = strtoull(line.c_str() + 2, nullptr, 10); sl.since = tn; }
+                    if (line.size() > 2 && line[0] == 'T') sl.tag = line.substr(2);
+                    else if (line.size() > 2 && line[0] == 'B') { sl.tag.clear(); sl.inflight = true; sl.inflight_seed = strtoull(line.c_str() + 2, nullptr, 10); sl.since = tn; }
                     else if (line.size() > 2 && line[0] == 'R') {
                         J res; if (J::parse_str(line.substr(2), res)) { agg.add(res); }
                         else ++machinery_faults;
@@ -279,7 +284,7 @@ static int cmd_batch(const Args &a) {
                 close(sl.fd); sl.fd = -1;
                 if (capped) { sl.done = true; continue; }
                 if (sl.inflight) {
-                    J res = synth_crash(sl.inflight_seed, status, slurp(sl.errfile), timeout, sl.sigc);
+                    J res = synth_crash(sl.inflight_seed, status, slurp(sl.errfile), timeout, sl.sigc, sl.tag);
                     // attach a sample by regenerating the configuration
                     agg.add(res);
                     sl.inflight = false;
@@ -316,7 +321,7 @@ static int cmd_batch(const Args &a) {
         v.set("prop", vc.prop).set("oracle", vc.oracle).set("sig", vc.sig).set("count", (long long)vc.count).set("first_seed", J((long long)vc.first_seed)).set("detail", vc.detail);
         bool is_known = known.count(vc.prop + ":" + vc.sig) > 0;
         v.set("known", is_known);
-        if (!a.no_min && ++nclass <= 12) {
+        if (!a.no_min && ++nclass <= 60) {
             go.index = (long)(vc.first_seed - a.base);
             Case c = gen_case(a.profile, vc.first_seed, go);
             MinResult mr = minimise_and_write(c, vc.prop, vc.sig, a.replay_dir, errdir, a.timeout_s, is_known ? 40 : a.max_min_runs, a.flavour);
